@@ -754,8 +754,11 @@ impl Arena {
     }
     let header = self.header_mut();
 
-    let want = header.allocated + size;
-    if want <= self.cap {
+    if let Some(want) = header
+      .allocated
+      .checked_add(size)
+      .filter(|want| *want <= self.cap)
+    {
       let offset = header.allocated;
       header.allocated = want;
 
@@ -864,9 +867,12 @@ impl Arena {
     let allocated = header.allocated;
     let aligned_offset = align_offset::<T>(allocated);
     let size = mem::size_of::<T>() as u32;
-    let want = aligned_offset + size + extra;
 
-    if want <= self.cap {
+    if let Some(want) = aligned_offset
+      .checked_add(size)
+      .and_then(|want| want.checked_add(extra))
+      .filter(|want| *want <= self.cap)
+    {
       // break size + extra;
       let offset = header.allocated;
       header.allocated = want;
@@ -884,11 +890,11 @@ impl Arena {
     // allocate through slow path
     match self.freelist {
       Freelist::None => Err(Error::InsufficientSpace {
-        requested: size + extra,
+        requested: size.saturating_add(extra),
         available: self.remaining() as u32,
       }),
       Freelist::Optimistic => {
-        match self.alloc_slow_path_optimistic(Self::pad::<T>() as u32 + extra) {
+        match self.alloc_slow_path_optimistic((Self::pad::<T>() as u32).saturating_add(extra)) {
           Ok(mut bytes) => {
             bytes.align_bytes_to::<T>();
             Ok(Some(bytes))
@@ -897,7 +903,7 @@ impl Arena {
         }
       }
       Freelist::Pessimistic => {
-        match self.alloc_slow_path_pessimistic(Self::pad::<T>() as u32 + extra) {
+        match self.alloc_slow_path_pessimistic((Self::pad::<T>() as u32).saturating_add(extra)) {
           Ok(mut bytes) => {
             bytes.align_bytes_to::<T>();
             Ok(Some(bytes))
